@@ -30,7 +30,46 @@ func runC02(env *Env, rc *RunCtx) {
 	if t.Bool(1, 3) {
 		wide = t.Range(2, 7)
 	}
-	c := GenCase(t, GenOpts{Enc: -1, AllowRecursion: true, Gadgets: true, WideNode: wide, NoNegation: rc.Mode == "positive"})
+	c := GenCase(t, GenOpts{Enc: -1, AllowRecursion: true, Gadgets: true, WideNode: wide, WideMember: true, NoNegation: rc.Mode == "positive"})
+	// One case in five (not in mode positive): access = allow && !deny, where deny
+	// fans out to k groups (k around and above the width limit) and the subject is a
+	// member of at most one of them, directly or one group further down. A width cut
+	// that hides the deciding group below the negation must not turn into "allowed".
+	if rc.Mode != "positive" && t.Bool(1, 5) {
+		k := t.Range(2, 12)
+		if t.Bool(1, 4) {
+			k = t.Range(20, 45)
+		}
+		ty := []TypeRef{{NS: "N1"}, {NS: "N0", Rel: "member"}}
+		c.Cfg = &Config{Enc: c.Cfg.Enc, NS: []*NSDef{
+			{Name: "N0", Rels: []*RelDef{{Name: "allow", Types: ty}, {Name: "deny", Types: ty}, {Name: "member", Types: ty},
+				{Name: "access", Rewrite: &Expr{Kind: ExAnd, Children: []*Expr{{Kind: ExIncludes, Rel: "allow"}, {Kind: ExNot, Children: []*Expr{{Kind: ExIncludes, Rel: "deny"}}}}}}}},
+			{Name: "N1"}}}
+		if c.Cfg.Enc == EncNone {
+			c.Cfg.Enc = EncOPL
+		}
+		u := Subject{ID: "u0"}
+		c.Tuples = []Tuple{{NS: "N0", Obj: "doc", Rel: "allow", Sub: u}}
+		for i := 0; i < k; i++ {
+			c.Tuples = append(c.Tuples, Tuple{NS: "N0", Obj: "doc", Rel: "deny", Sub: Subject{Set: &SetRef{NS: "N0", Obj: fmt.Sprintf("g%d", i), Rel: "member"}}})
+		}
+		switch t.Choose(3) {
+		case 0: // a direct member of one group
+			c.Tuples = append(c.Tuples, Tuple{NS: "N0", Obj: fmt.Sprintf("g%d", t.Choose(k)), Rel: "member", Sub: u})
+		case 1: // one group further down
+			c.Tuples = append(c.Tuples, Tuple{NS: "N0", Obj: fmt.Sprintf("g%d", t.Choose(k)), Rel: "member", Sub: Subject{Set: &SetRef{NS: "N0", Obj: "inner", Rel: "member"}}},
+				Tuple{NS: "N0", Obj: "inner", Rel: "member", Sub: u})
+		}
+		c.Query = Tuple{NS: "N0", Obj: "doc", Rel: "access", Sub: u}
+		c.Conforming = true
+		if g < 4 {
+			g = t.Range(4, 8)
+		}
+		if w > 5 {
+			w = []int{1, 2, 3, 5}[t.Choose(4)]
+		}
+		rc.Count("probe_fanout_below_negation", 1)
+	}
 	rc.Rec.CaseHash = fmt.Sprintf("%016x", c.Hash()^uint64(g*1000003+(r+5)*1009+w))
 	ref := RefCheck(c.Cfg, c.Tuples, c.Query)
 	eff := g
